@@ -60,6 +60,12 @@ pub fn directed(name: &str) -> Option<Strategy> {
             d(Sel::AllExcept(0, 1), "hist_record", Some(1)),
             d(Sel::All, "never", None),
         ])),
+        "attempt-ends-at-commit-head" => Some(Strategy::Directed(vec![
+            d(Sel::Role(0, 0), "exec_begin", Some(0)),
+            d(Sel::Role(0, 1), "exec_end", Some(1)),
+            d(Sel::AllExcept(0, 1), "commit_dep_release", Some(0)),
+            d(Sel::All, "never", None),
+        ])),
         _ => None,
     }
 }
@@ -607,7 +613,7 @@ pub fn cmd_witness(args: &Args) -> J {
     let mut divergences = Vec::new();
     let mut samples = Vec::new();
     let mut ran = 0usize;
-    let names = ["F2-stale-attempt-fatal", "F5-reexecution-after-abort", "vanished-read-source", "F8-sequential-beneficiary-fault"];
+    let names = ["F2-stale-attempt-fatal", "F5-reexecution-after-abort", "vanished-read-source", "F8-sequential-beneficiary-fault", "wrong-nonce-attempt-ends-at-commit-head"];
     for name in names {
         if !only.is_empty() && only != name {
             continue;
@@ -616,6 +622,9 @@ pub fn cmd_witness(args: &Args) -> J {
         let (block, strategy, fault_free): (Block, &str, Option<Block>) = match name {
             "F2-stale-attempt-fatal" => (crate::blocks::gen_stale_fatal(&mut rng), "stale-attempt-ends-at-commit-head", None),
             "vanished-read-source" => (crate::blocks::gen_vanished_source(&mut rng), "read-source-vanishes-before-validation", None),
+            // the attempt of the wrong-nonce transaction starts speculatively (nonce check off)
+            // and ends as the commit head: the ordered commit's nonce gate must still reject it
+            "wrong-nonce-attempt-ends-at-commit-head" => (crate::blocks::gen_wrong_nonce_second(&mut rng), "attempt-ends-at-commit-head", None),
             "F8-sequential-beneficiary-fault" => {
                 let mut b = crate::blocks::gen_invalid_then_transfers(&mut rng);
                 b.db.fault = Some((Key::Basic(b.env.beneficiary), FaultMode::Persistent));
